@@ -77,6 +77,13 @@ impl SubscriptionManager {
         name: &SubscriptionName,
     ) -> Result<Arc<Subscription>, GetSubscriptionError> {
         let state = self.state.read();
+        #[cfg(deltio_verif)]
+        crate::verif::emit("m.gs", |_| {
+            serde_json::json!({
+                "name": name.to_string(),
+                "si": state.subscriptions.get(name).map(|s| s.internal_id),
+            })
+        });
         state
             .subscriptions
             .get(name)
@@ -122,6 +129,16 @@ impl SubscriptionManager {
 
         // If we got at least one element, then we want to return a new offset.
         let next_page = paging.next_page_from_slice_result(&subscriptions_for_project);
+        #[cfg(deltio_verif)]
+        crate::verif::emit("m.ls", |_| {
+            serde_json::json!({
+                "project": project_id.to_string(),
+                "skip": paging.to_skip(),
+                "size": paging.size(),
+                "out": subscriptions_for_project.iter().map(|s| s.internal_id).collect::<Vec<_>>(),
+                "next": next_page.offset(),
+            })
+        });
 
         let page = SubscriptionsPage::new(subscriptions_for_project, next_page.offset());
         Ok(page)
@@ -145,6 +162,10 @@ impl State {
         push_registry: PushSubscriptionsRegistry,
         delegate: SubscriptionManagerDelegate,
     ) -> Result<Arc<Subscription>, CreateSubscriptionError> {
+        #[cfg(deltio_verif)]
+        let verif_info = info.clone();
+        #[cfg(deltio_verif)]
+        let verif_topic = topic.internal_id;
         if let Entry::Vacant(entry) = self.subscriptions.entry(info.name.clone()) {
             self.next_id += 1;
             let internal_id = self.next_id;
@@ -156,8 +177,31 @@ impl State {
                 delegate,
             ));
             entry.insert(subscription.clone());
+            #[cfg(deltio_verif)]
+            crate::verif::emit("m.cs", |_| {
+                serde_json::json!({
+                    "name": verif_info.name.to_string(),
+                    "si": internal_id,
+                    "ti": verif_topic,
+                    "dms": verif_info.ack_deadline.as_millis() as u64,
+                    "push": verif_info.push_config.as_ref().map(|p| p.endpoint.clone()),
+                    "ok": true,
+                })
+            });
             return Ok(subscription);
         }
+
+        #[cfg(deltio_verif)]
+        crate::verif::emit("m.cs", |_| {
+            serde_json::json!({
+                "name": verif_info.name.to_string(),
+                "si": null,
+                "ti": verif_topic,
+                "dms": verif_info.ack_deadline.as_millis() as u64,
+                "push": verif_info.push_config.as_ref().map(|p| p.endpoint.clone()),
+                "ok": false,
+            })
+        });
 
         Err(CreateSubscriptionError::AlreadyExists)
     }
@@ -172,6 +216,13 @@ impl SubscriptionManagerDelegate {
     /// Deletes the subscription from the manager's state.
     pub fn delete(&self, name: &SubscriptionName) {
         let mut state = self.state.write();
+        #[cfg(deltio_verif)]
+        crate::verif::emit("m.rs", |_| {
+            serde_json::json!({
+                "name": name.to_string(),
+                "si": state.subscriptions.get(name).map(|s| s.internal_id),
+            })
+        });
         let _ = state.subscriptions.remove(name);
     }
 }
